@@ -24,10 +24,25 @@ class Leave(Exception):
     """the program leaves the contract (caller error): nothing is promised from here on"""
 
 
+POOL = 6   # compio_driver::BufferRef (pool part, harness c10b)
+
+
 class Member:
-    def __init__(self, kind, ln, cap):
+    """a root allocation: `cap` = capacity the buffer reports (for a pool buffer the user-set
+    one), `full` = size of the allocation"""
+
+    def __init__(self, kind, ln, cap, full=None):
         self.kind, self.rlen, self.cap = kind, ln, cap
-        self.img = [canary(i) for i in range(cap)]
+        self.full = cap if full is None else full
+        self.img = [canary(i) for i in range(self.full)]
+
+    def set_capacity(self, n):
+        """BufferRef::set_capacity: nothing for 0, else capacity = min(n, full size) and the
+        length is cut down to it; the content stays"""
+        if self.kind != POOL or n == 0:
+            return
+        self.cap = min(n, self.full)
+        self.rlen = min(self.rlen, self.cap)
 
 
 class Window:
@@ -38,6 +53,14 @@ class Window:
         self.m, self.o, self.E = m, o0, None
         self.has_uninit = False
         self.filled_after_uninit = False
+        self.layers = []     # 'S' / 'U', innermost first
+
+    def flatten(self):
+        """Slice<Slice<T>>::flatten: the same window, one layer less"""
+        if self.layers[-2:] == ['S', 'S']:
+            self.layers.pop()
+            return True
+        return False
 
     def rng(self):
         e = self.m.cap if self.E is None else min(self.E, self.m.cap)
@@ -51,11 +74,13 @@ class Window:
         if e is not None:
             self.E = o + e if self.E is None else min(self.E, o + e)
         self.o = o + b
+        self.layers.append('S')
 
     def uninit(self):
         o, l, c = self.rng()
         self.o = o + l
         self.has_uninit = True
+        self.layers.append('U')
 
     def write(self, j, k):
         o, l, c = self.rng()
@@ -172,14 +197,13 @@ def gen_root(rng, vectored=False):
     return kind, ln, cap
 
 
-def gen_buffer(rng, adv):
-    kind, ln, cap = gen_root(rng)
-    w = Window(Member(kind, ln, cap))
+def gen_steps(rng, adv, w, flat_bias=False):
+    """steps of a buffer / pool case over the window `w` (its member gives kind and sizes)"""
+    kind, cap = w.m.kind, w.m.full
     steps = []
     j = 0
     alive = True   # still inside the contract (parameters are then chosen in range)
-    aborted = False
-    for _ in range(rng.randrange(2, 8)):
+    for _ in range(rng.randrange(2, 9 if flat_bias else 8)):
         o, l, c = w.rng() if alive else (0, cap, cap)
         r = rng.random()
         wild = adv and rng.random() < 0.25
@@ -190,19 +214,36 @@ def gen_buffer(rng, adv):
             r = 0.99
         if kind == 0 and wild and rng.random() < 0.85:
             wild = False
+        nested = w.layers[-2:] == ['S', 'S']
+        if nested and rng.random() < (0.6 if flat_bias else 0.35):
+            steps.append((6, 0, 0))
+            w.flatten()
+            continue
+        if kind == POOL and rng.random() < 0.22:
+            full = w.m.full
+            n = rng.choice([0, 1, full, full + 3, rng.randrange(1, full + 1), rng.randrange(1, full + 1),
+                            max(1, w.m.rlen - 1), 2 ** 32, 2 ** 32 + rng.randrange(1, 5), 2 ** 40 + 7])
+            if w.layers and n != 0 and min(n, full) < w.m.rlen and rng.random() < 0.7:
+                n = full                  # mostly keep the bytes a view may be looking at
+            steps.append((7, n, 0))
+            w.m.set_capacity(n)
+            continue
         try:
-            if r < 0.30:
+            if r < (0.45 if flat_bias else 0.30):
                 b = rng.randrange(0, cap + 3) if wild else rng.randrange(0, l + 1)
+                if flat_bias and not wild and l > 0 and rng.random() < 0.5:
+                    b = rng.randrange(1, l + 1)
                 if rng.random() < 0.5:
                     e = None
                 else:
-                    e = rng.randrange(0, cap + 4) if wild else rng.choice([b, b + 1, rng.randrange(b, cap + 3), c])
+                    e = rng.randrange(0, cap + 4) if wild else rng.choice([b, b + 1, rng.randrange(b, cap + 3), c,
+                                                                           c + 2, cap + 5])
                     if not wild and e < b:
                         e = b
                 steps.append((1, b, 0 if e is None else e + 1))
                 if alive:
                     w.slice(b, e)
-            elif r < 0.42:
+            elif r < (0.50 if flat_bias else 0.42):
                 steps.append((2, 0, 0))
                 if alive:
                     w.uninit()
@@ -232,10 +273,25 @@ def gen_buffer(rng, adv):
                     m.rlen = o + k
                 elif m.kind in (3, 4):
                     m.rlen = max(m.rlen, o + k)
+                elif m.kind == POOL:
+                    m.rlen = min(o + k, m.cap)
+            elif r < 0.96 and not nested:
+                steps.append((rng.choice([6, 6, 7]), rng.randrange(0, 9), 0))   # no-ops here
             else:
                 steps.append((0, 0, 0))
         except Leave:
             alive = False
+    return steps
+
+
+def gen_buffer(rng, adv):
+    kind, ln, cap = gen_root(rng)
+    flat_bias = rng.random() < 0.25
+    if flat_bias and cap < 4 and not fixed(kind) and kind != 4:
+        cap = rng.choice([6, 9, 12])
+        ln = rng.choice([cap, rng.randrange(cap // 2, cap + 1)])
+    w = Window(Member(kind, ln, cap))
+    steps = gen_steps(rng, adv, w, flat_bias)
     case = [1, kind, ln, cap, len(steps)]
     for s in steps:
         case += list(s)
@@ -361,7 +417,16 @@ def generate(seed, n):
 
 def describe(case):
     if case[:1] == [1] and len(case) > 1:
-        return "buffer:" + KIND_NAMES.get(case[1], "?")
+        flat = ""
+        try:
+            ns = case[4]
+            if any(case[5 + 3 * i] == 6 for i in range(ns)):
+                flat = "+flatten"
+        except IndexError:
+            pass
+        return "buffer:" + KIND_NAMES.get(case[1], "?") + flat
+    if case[:1] == [3] and len(case) > 1:
+        return "pool:" + {0: "polling", 1: "io_uring"}.get(case[1], "?")
     if case[:1] == [2] and len(case) > 1:
         return "vectored:" + CONT_NAMES.get(case[1], "?")
     return "?"
@@ -372,9 +437,10 @@ def nontrivial(case, impl_out):
     if impl_out[:1] == [99999] or (impl_out[:1] == [2] and len(impl_out) == 2):
         return False
     try:
-        if case[0] == 1:
-            ns = case[4]
-            st = case[5:5 + 3 * ns]
+        if case[0] in (1, 3):
+            p = 4 if case[0] == 1 else 3
+            ns = case[p]
+            st = case[p + 1:p + 1 + 3 * ns]
             return any(st[3 * i] in (3, 4, 5) and st[3 * i + 1] > 0 for i in range(ns))
         nm = case[2]
         p = 3 + 3 * nm
